@@ -11,7 +11,7 @@ Three layers (see coq/theories/C13/Model.v for what is modelled):
 Rule applied to the implementation: export either raises or produces output that the importer
 accepts and reads as an equivalent object.
 """
-STATIC = ["C13/Props"]
+STATIC = ["C13/Props", "C13/PropsHistory"]
 
 import ast
 import hashlib
@@ -2034,7 +2034,14 @@ RULE = ("cases are JSON specs executed against the real qibo: (qasm) one circuit
         "forms; (circuit_dict) every class inside a circuit + layouts + random circuits; (bind) constructor calls with every "
         "positional/keyword split and malformed calls; (program) QASM programs with several registers, expressions and custom "
         "gates; (custom_gate) generated programs with user-defined gates -- nested definitions, forwarded parameters, literal "
-        "arguments 0, 0.0, -0.0, pi, -pi/2, pi-pi, ... -- whose import is compared with the expansion known to the generator; (result) state / outcomes / both x what was computed before the dump x 3 import paths. A case counts as "
+        "arguments 0, 0.0, -0.0, pi, -pi/2, pi-pi, ... -- whose import is compared with the expansion known to the generator; "
+        "(hist_circuit / hist_gate) one object driven through a history generated from a grammar {execute, sample, set_parameters, gate.parameters=, "
+        "set_parameters through copy / fuse / invert / deep copy aliases, add, wire_names, intermediate export}: every export (raw, json, qasm) against "
+        "the export of a from-scratch object in the same state, intermediate exports are snapshots, exports do not change the source, imports do not "
+        "change the dictionary, two imports are independent; (opt) options crossed (1-3 controls x trainable x updated x density_matrix x wire_names x "
+        "measurement options x same gate object twice) compared directly incl. trainable/get_parameters; (hist_result) one circuit executed several times "
+        "with accessor calls and parameter updates in between, one result dumped: loaded result against the dumped one and against the load of a single "
+        "from-scratch execution; (text) re-formatted programs and parameter expressions; (result) state / outcomes / both x what was computed before the dump x 3 import paths. A case counts as "
         "non-trivial when the circuit has at least one gate; distinct = distinct spec (sha1 of the canonical JSON).")
 
 
@@ -2065,6 +2072,8 @@ def run_all(run):
               ("bind", suite_bind), ("results", suite_results)]
     suite_programs(run, rng, T)
     suite_custom_gates(run, random.Random(run.seed * 7919 + 13), T)
+    from harness import c13_hist
+    c13_hist.run_streams(run, T)
     for name, fn in suites:
         batch, res = fn(run, rng, T)
         bad = [k for k, v in res.items() if v is False and "modelled" not in k]
@@ -2075,6 +2084,12 @@ def run_all(run):
         run.oblige(f"model == implementation on all {name} cases", not bad and not broken, "correspondence")
         for k in bad[:5]:
             run.find(f"model_mismatch:{name}:{k}", f"Coq model and implementation disagree on {k}", {"suite": name, "label": k, "spec": batch.meta.get(k)}, concrete=False)
+        if name == "results" and (bad or broken):
+            # the field-level model of to_dict/from_dict broke: search the history space (execute / sample /
+            # set_parameters / execute / dump / load on ONE circuit object) for a concrete failing input
+            n0 = len(run.findings)
+            c13_hist.suite_hist_result(run, random.Random(run.seed * 31 + 5), T, extra=150 if run.tier == "quick" else 400)
+            run.notes["result_history_search_after_model_mismatch"] = {"histories": 150 if run.tier == "quick" else 400, "concrete_findings": len(run.findings) - n0}
         if broken:
             run.find(f"model_eval:{name}", f"{len(broken)} model comparisons could not be evaluated", {"suite": name}, concrete=False)
     table_theorems(run, tab, {f.key for f in run.findings})
@@ -2092,6 +2107,19 @@ def run_all(run):
             if not a.startswith("Closed"):
                 run.axioms.add(a[:120])
         T["static_print_assumptions"] = {t: a[:80] for t, a in ass.items()}
+    # history models (C13/History.v): results of a circuit object executed several times, circuits over a heap of gate objects
+    okh, assh = vcore.static_assumptions("C13/PropsHistory")
+    for t in vcore.props_theorems("C13/PropsHistory.v"):
+        run.oblige(t, okh, "static-theorem")
+        if "_refuted" in t:
+            run.refuted.append(t.split("_refuted")[0] + " (full statement; witness: " + t + ")")
+    if not okh:
+        run.find("static:C13/PropsHistory", "Print Assumptions over C13/PropsHistory.vo failed (static development does not build)", {}, concrete=False)
+    else:
+        for t, a in assh.items():
+            if not a.startswith("Closed"):
+                run.axioms.add(a[:120])
+        T["static_print_assumptions_history"] = {t: a[:80] for t, a in assh.items()}
     if run.tier == "thorough":
         rc, out = vcore.sh("timeout 1200 coqchk -silent -o -Q theories QV QV.C13.Props", cwd=vcore.COQ, timeout=1300)
         run.checker_cmds.append("coqchk -silent -o -Q theories QV QV.C13.Props")
@@ -2101,7 +2129,7 @@ def run_all(run):
             run.find("static:coqchk", "coqchk failed or reported axioms: " + out[-400:], {}, concrete=False)
     T["differences_outside_the_property_text_not_counted"] = [
         "through QASM: density_matrix flag, wire_names, bit-flip probabilities (p0/p1) of M, M basis (its rotations are exported as gates), python int parameters become floats, order of control qubits (sorted), position of non-collapsing measurements (moved to the end)",
-        "through dictionaries: trainable=False becomes True, Unitary name/check_unitary",
+        "through dictionaries: Unitary name/check_unitary (trainable=False -> True is now COUNTED: finding trainable_dropped:*)",
         "importer behaviour on hand-written programs (parenthesised expressions, expressions of formal parameters inside `gate` bodies, partially measured registers): see importer_observations_outside_property_text",
         "ill-formed inputs: control qubits >= nqubits are accepted by Circuit.add and exported; non-finite parameters (inf/nan) are exported as `rx(inf)` and read back as the string 'inf'"]
     run.notes.update(T)
@@ -2117,6 +2145,7 @@ def main(run):
     run.not_proved += ["qasm_roundtrip (full): refuted by collapsing measurements (qasm_roundtrip_refuted) and by the iSWAP label; proved: qasm_roundtrip_partial",
                        "circuit_dict_roundtrip (full): refuted by measurement bases other than Z (circuit_dict_roundtrip_refuted); proved: circuit_dict_roundtrip_partial (per-gate hypothesis discharged by raw_roundtrip_<C> / M_raw_dict_roundtrip)",
                        "result_roundtrip (full): refuted when only frequencies were computed (result_roundtrip_refuted)",
+                       "history streams: dump_load_function_of_result / export_current_state_only are proved of the field-level models of C13/History.v; input non-mutation, snapshot stability of exported dictionaries and object independence of two imports are properties of Python object identity with no counterpart in a functional model: exercised by the real runs only (hist_circuit, hist_gate, hist_result, result_payload)",
                        "below the token level (digits of float repr / integers; the openqasm3 lexer itself), json and numpy files, custom gate definitions and parameter expressions: exercised by the real round trips, not proved; the token-level text round trip is proved (qasm_text_roundtrip_partial, refuted for non-identifier register names)"]
     return run.finish(level="proof", rule=RULE)
 
@@ -2145,6 +2174,11 @@ def replay(run, data):
     elif suite == "custom_gate":
         cat, detail, _ = cg_outcome(rp["program"])
         again = cat != "ok"
+    elif suite in ("hist_circuit", "hist_gate", "hist_result", "opt", "result_payload", "text", "text_expr"):
+        from harness import c13_hist
+        again, detail = c13_hist.replay_case(rp)
+        if again is None:
+            again = False
     elif suite == "program":
         from qibo import Circuit
         try:
